@@ -3,6 +3,7 @@ import props_policy
 import props_sketch
 import props_store
 import props_cache
+import props_life
 
 COMMON_ASSUMPTIONS = [
     "rustc's type checker / MIR construction and the fact extractor's serialisation are trusted",
@@ -54,6 +55,22 @@ PROPS = {
                 explanation="Lookup -> estimator chain decided as must-call rules: get/get_mut push build_key(key).0 before the store lookup on every open path; the ring appends, flushes iff "
                             "full and empties the buffer; LFUPolicy::push accounts each flushed batch exactly once as kept or dropped; one channel policy -> worker; a received batch is applied "
                             "with admit.increments under the lock."),
+    "C06": dict(fn=props_life.check_C06, floor={"sync": 20, "async": 20},
+                explanation="Store/policy agreement decided as pairing + thread-affinity rules: membership-changing operations run only on the processor (call graph with thread "
+                            "contexts), handle_item pairs added<->try_insert, victim<->try_remove, Delete<->policy.remove+store.try_remove, client remove pairs the store removal with a "
+                            "queued Delete of the same (index, conflict), the sweeper pairs policy.remove with store.try_remove, no fallible call sits between paired changes, len() sums all shards."),
+    "C10": dict(fn=props_life.check_C10, floor={"sync": 18, "async": 18},
+                explanation="wait() barrier decided structurally: a single bounded FIFO with three audited send sites and two receivers (both on the processor), handle_item applies items "
+                            "synchronously and exhaustively with a releasing Wait arm, the Wait token is released on every way an item can be destroyed (Drop of its carrier, async drain after close), "
+                            "wait() uses try_send and waits only after a successful enqueue, closed check first, workers leave their loops on the stop arm."),
+    "C11": dict(fn=props_life.check_C11, floor={"sync": 25, "async": 25},
+                explanation="clear() decided structurally: signal + policy/store/metrics reset on every successful path, the cleaner drains the buffer (New -> on_evict, Wait -> release), "
+                            "policy.clear/TinyLFU::clear/SampledLFU::clear/ShardedMap::clear/Metrics::clear reset every piece of state, stale expiry-bucket entries are inert (sweeper predicate), "
+                            "thread affinity of the reset."),
+    "C12": dict(fn=props_life.check_C12, floor={"sync": 25, "async": 25},
+                explanation="close() decided structurally: every public operation tests is_closed before its first effect and returns the neutral value when closed, close() must pass through "
+                            "stop signal + policy.close() + flag, worker loops return on their stop arm for message and disconnect alike and own no sender, no public operation unwraps a "
+                            "Result whose Err is constructible (interprocedural may-Err analysis)."),
 }
 
 NOT_APPLICABLE = {}
